@@ -226,3 +226,22 @@ func (s *Script) define(prefix, sort, t string) string {
 }
 
 func (s *Script) mark() int { return len(s.lines) }
+
+// constArray returns an array whose every element is dflt. Solvers accept (as const ...) only
+// for value defaults; for other defaults a fresh array with a quantified definition is used.
+func (s *Script) constArray(arrSort, dflt string) string {
+	isValue := dflt == "true" || dflt == "false" || strings.HasPrefix(dflt, "(_ bv") || strings.HasPrefix(dflt, "((as const") ||
+		(len(dflt) > 0 && (dflt[0] >= '0' && dflt[0] <= '9'))
+	if isValue {
+		return fmt.Sprintf("((as const %s) %s)", arrSort, dflt)
+	}
+	a := s.fresh("constarr", arrSort)
+	// index sort is the first component of the array sort
+	_, args, _ := splitArgs(arrSort)
+	idx := sortIdx
+	if len(args) == 2 {
+		idx = args[0]
+	}
+	s.assert(fmt.Sprintf("(forall ((i!q %s)) (! (= (select %s i!q) %s) :pattern ((select %s i!q))))", idx, a, dflt, a))
+	return a
+}
